@@ -222,6 +222,44 @@ fn nested_eq_matrix(ctx: &Ctx, cases: &mut Vec<(Case, bool)>) {
     }
 }
 
+// The ill-typed pair sits between containers that already took part in the
+// same comparison with other partners (x1 against x2, y1 against y2, then x1
+// against y2): every other pair is equal, so whatever the traversal order the
+// pair must be reached and reported.
+fn shared_eq_matrix(cases: &mut Vec<(Case, bool)>) {
+    for op in [Op::Eq, Op::Ne] {
+        for l in KINDS {
+            for r in KINDS {
+                let (a, b) = (l.reps()[1], r.reps()[1]);
+                for shape in 0..5 {
+                    let build = match shape {
+                        0 => "left := [x1, y1, x1]\nright := [x2, y2, y2]\n",
+                        1 => "left := {\"p\": x1, \"q\": y1, \"r\": x1}\nright := {\"p\": x2, \"q\": y2, \"r\": y2}\n",
+                        2 => "left := [[x1], {\"k\": y1}, [[x1]]]\nright := [[x2], {\"k\": y2}, [[y2]]]\n",
+                        3 => "left := [x1, y1, x1, y1, x1]\nright := [x2, y2, x2, y2, y2]\n",
+                        _ => "both := [x1, y1]\nleft := [both, x1, y1, x1]\nright := [both, x2, y2, y2]\n",
+                    };
+                    let src = format!("{PRELUDE}x1 := [{a}]\nx2 := [{a}]\ny1 := [{b}]\ny2 := [{b}]\nprint(\"built\")\n{build}print(left {} right)\n", op.sym());
+                    let cell = format!("shared sub-containers {} {:?} {:?} shape {shape}", op.sym(), l, r);
+                    // Functions cannot be compared at all: x1 against x2
+                    // already fails then.
+                    let (fl, fr) = (matches!(l, K::Func | K::Builtin), matches!(r, K::Func | K::Builtin));
+                    if fl || fr {
+                        let t = if fl { l.type_name() } else { r.type_name() };
+                        cases.push(err_case("shared_eq", src, PRELUDE_LINES + 9, vec![op.sym().to_string(), t.to_string()], cell));
+                    } else if in_domain(op, l, r) {
+                        let v = value_of(op, l, a, b);
+                        cases.push(ok_case("shared_eq", src, v.map(|v| format!("built\n{v}\n")), cell));
+                    } else {
+                        let parts = vec![op.sym().to_string(), l.type_name().to_string(), r.type_name().to_string()];
+                        cases.push(err_case("shared_eq", src, PRELUDE_LINES + 9, parts, cell));
+                    }
+                }
+            }
+        }
+    }
+}
+
 fn op_assign_matrix(ctx: &Ctx, cases: &mut Vec<(Case, bool)>) {
     for op in sdmodel::ast::ARITH_OPS {
         for l in KINDS {
@@ -417,6 +455,7 @@ pub fn run(ctx: &Ctx) {
     operator_matrix(ctx, &mut cases);
     op_assign_matrix(ctx, &mut cases);
     nested_eq_matrix(ctx, &mut cases);
+    shared_eq_matrix(&mut cases);
     value_zoo(ctx, &mut cases);
     context_matrix(ctx, &mut cases);
     type_function_matrix(ctx, &mut cases);
